@@ -11,6 +11,7 @@ import (
 
 	"sigs.k8s.io/kustomize/api/filters/fieldspec"
 	"sigs.k8s.io/kustomize/api/filters/filtersutil"
+	"sigs.k8s.io/kustomize/api/provider"
 	"sigs.k8s.io/kustomize/api/types"
 	"sigs.k8s.io/kustomize/kyaml/resid"
 	kyaml "sigs.k8s.io/kustomize/kyaml/yaml"
@@ -18,7 +19,7 @@ import (
 )
 
 type c12CoreCase struct {
-	Op     string   `json:"op"` // lookup | lookupcreate | fieldspec
+	Op     string   `json:"op"` // lookup | lookupcreate | fieldspec | addprefix | enable | removebuild
 	Doc    string   `json:"doc"`
 	Path   []string `json:"path,omitempty"`   // lookup / lookupcreate
 	Kind   string   `json:"kind,omitempty"`   // lookupcreate: KScalar|KMap|KSeq ; fieldspec: CreateKind ("" = 0)
@@ -96,6 +97,21 @@ func c12CoreRun(c c12CoreCase, doc *kyaml.RNode) error {
 			CreateKind: ck,
 		})
 		return e
+	case "addprefix", "enable", "removebuild":
+		rf := provider.NewDefaultDepProvider().GetResourceFactory()
+		r, err := rf.FromBytes([]byte(c.Doc))
+		if err != nil {
+			return fmt.Errorf("outside-domain: %w", err)
+		}
+		switch c.Op {
+		case "addprefix":
+			r.AddNamePrefix(c.FsPath)
+		case "enable":
+			r.AllowNameChange()
+		default:
+			r.RemoveBuildAnnotations()
+		}
+		return nil
 	}
 	return fmt.Errorf("bad op")
 }
@@ -136,6 +152,12 @@ func c12CoreTerm(c c12CoreCase, cls string) (string, bool) {
 			set = `(SEntry "k" "v" TStr)`
 		}
 		op = fmt.Sprintf("(O12FieldSpec (mkFs \"\" \"\" %s %s %s) %s %s)", coqStr(c.FsKind), coqStr(c.FsPath), coqBool(c.Create), ck, set)
+	case "addprefix":
+		op = "(O12AddPrefix " + coqStr(c.FsPath) + ")"
+	case "enable":
+		op = "O12Enable"
+	case "removebuild":
+		op = "O12RemoveBuild"
 	}
 	return fmt.Sprintf("(mk12 %s %s %s)", op, d, cls), true
 }
@@ -239,6 +261,27 @@ func c12CoreCases(r *Run, rng *Rng, gen *c12Gen, n int) {
 				}
 			}
 		}
+		// the Resource methods that write build annotations, on odd shapes of metadata.annotations
+		if c.Op == "" && g.Chance(14) {
+			if md := mapGet(d, "metadata"); md != nil && md.Kind == yaml.MappingNode && len(md.Content) > 0 {
+				shapes := []*yaml.Node{
+					yl(ys("a"), ys("b")), yl(ys("a")), yl(ym(), ym()), ym("", ys("x")), ys("foo"), ynull(), ymss(map[string]string{"a": "b"}),
+					yl(yl(), ys("x")), yl(ys(""), ys("y")), yl(), ym(), yi(5), yl(ys("a"), ys("b"), ys("c")),
+					ym("internal.config.kubernetes.io/prefixes", ys("q-"), "note", ys("1")), ym("internal.config.kubernetes.io/prefixes", ys("q-")),
+					ym("a", ym("b", ys("c"))), yl(ym("k", ys("v")), ys("x")), nil,
+				}
+				sh := shapes[g.Intn(len(shapes))]
+				if sh != nil {
+					mapSet(md, "annotations", copyNode(sh))
+				}
+				if g.Chance(15) { // a second annotations field
+					md.Content = append(md.Content, ys("annotations"), copyNode(shapes[g.Intn(len(shapes)-1)]))
+				}
+				c.Op = g.Pick([]string{"addprefix", "addprefix", "enable", "removebuild", "removebuild"})
+				c.FsPath = g.Pick([]string{"p-", "p-", "", "a,b"})
+				shape = "build-annotation-methods"
+			}
+		}
 		b, err := encodeDocs([]*yaml.Node{d})
 		if err != nil {
 			r.Meta.Skipped++
@@ -298,6 +341,11 @@ func c12CoreCases(r *Run, rng *Rng, gen *c12Gen, n int) {
 			continue
 		}
 		res, _ := c12CoreExec(c)
+		if res.Outcome == "err" && strings.HasPrefix(res.Msg, "outside-domain:") || (shape == "build-annotation-methods" && !c12BuildAnnotDomain(c.Doc)) {
+			r.Meta.Skipped++
+			r.Count("core_skipped", "build-annotation-methods: resource rejected at load / metadata not a non-empty mapping")
+			continue
+		}
 		if res.Outcome == "parse-error" {
 			r.Meta.Skipped++
 			r.Count("core_skipped", "parse-error")
@@ -331,6 +379,22 @@ func firstN(l []string, n int) []string {
 		return l[:n]
 	}
 	return l
+}
+
+// c12BuildAnnotDomain: root mapping whose FIRST metadata field is a non-empty mapping (Res/BuildAnnot.v in_domain)
+func c12BuildAnnotDomain(docText string) bool {
+	doc, err := kyaml.Parse(docText)
+	if err != nil || doc.YNode() == nil || doc.YNode().Kind != kyaml.MappingNode {
+		return false
+	}
+	y := doc.YNode()
+	for i := 0; i+1 < len(y.Content); i += 2 {
+		if y.Content[i].Value == "metadata" {
+			v := y.Content[i+1]
+			return v.Kind == kyaml.MappingNode && len(v.Content) > 0
+		}
+	}
+	return false
 }
 
 // c12FieldspecInDomain: the document root is a mapping and metadata, when present, is a mapping or null.
